@@ -39,7 +39,11 @@ def _write_if_changed(path, content):
         f.write(content)
 
 
-def _sync_tree(src, dst, injections, extra_files):
+class GenError(Exception):
+    pass
+
+
+def _sync_tree(src, dst, injections, extra_files, patches=None):
     """Copy src tree to dst (only rewriting changed files so cargo's fingerprints
     stay valid), appending injection text to selected files and adding
     extra_files {relpath: content}."""
@@ -51,6 +55,10 @@ def _sync_tree(src, dst, injections, extra_files):
                 continue
             rp = os.path.normpath(os.path.join(rel, fn))
             data = open(os.path.join(root, fn)).read()
+            for anchor, repl in (patches or {}).get(rp, []):
+                if data.count(anchor) != 1:
+                    raise GenError("anchor %r not found exactly once in %s" % (anchor, rp))
+                data = data.replace(anchor, repl)
             if rp in injections:
                 data = data + "\n" + injections[rp] + "\n"
             _write_if_changed(os.path.join(dst, rp), data)
@@ -97,6 +105,20 @@ def _child_path(parent_rel, modname):
     return os.path.join(d, fn[:-3], modname + ".rs")
 
 
+# Extra append-only lines for a parent file once its harness child is present.
+ORDINALS_EXTRA_APPEND = {
+    # shadow the glob-imported std HashMap inside the runestone module tree with the
+    # Vec-backed stub (see harness/ordinals/runestone_h.rs `vmap`); cfg(kani) only
+    "runestone_h.rs": "#[cfg(all(kani, not(test)))]\nuse self::vh_runestone_h::vmap::HashMap;\n",
+}
+
+# In-place edits of the copy (not append-only): each is a layout-only attribute that
+# works around the Kani 0.68 discriminant ICE; the anchor must match exactly once.
+ORDINALS_PATCHES = {
+    "artifact.rs": [("pub enum Artifact {", "#[cfg_attr(kani, repr(u8))]\npub enum Artifact {")],
+}
+
+
 def gen_ordinals():
     dst = os.path.join(C.BUILD, "ordk")
     hdir = os.path.join(C.VERIF, "harness", "ordinals")
@@ -107,8 +129,9 @@ def gen_ordinals():
             modname = "vh_" + hf[:-3]
             inj.setdefault(target, "")
             inj[target] += "#[cfg(any(kani, vreplay))]\nmod %s;\n" % modname
+            inj[target] += ORDINALS_EXTRA_APPEND.get(hf, "")
             extra[_child_path(target, modname)] = _with_playback("ordk", hf, open(hp).read())
-    _sync_tree(os.path.join(C.REPO, "crates/ordinals/src"), os.path.join(dst, "src"), inj, extra)
+    _sync_tree(os.path.join(C.REPO, "crates/ordinals/src"), os.path.join(dst, "src"), inj, extra, ORDINALS_PATCHES)
     ws = _workspace_deps()
     cargo = open(os.path.join(C.REPO, "crates/ordinals/Cargo.toml")).read()
     deps = re.search(r"\[dependencies\]\n(.*?)(\n\[|\Z)", cargo, re.S).group(1)
@@ -142,6 +165,85 @@ unexpected_cfgs = { level = "allow" }
     _write_if_changed(os.path.join(dst, "Cargo.toml"), manifest)
     lock = open(os.path.join(C.REPO, "Cargo.lock")).read()
     _write_if_changed(os.path.join(dst, "Cargo.lock"), lock)
+    return dst
+
+
+# /repo-relative real file -> path inside build/liftk/src
+LIFT_FILES = {
+    "src/macros.rs": "macros.rs",
+    "src/decimal.rs": "lift/decimal.rs",
+    "src/runes.rs": "lift/runes.rs",
+    "src/index/entry.rs": "lift/index/entry.rs",
+    "src/index/lot.rs": "lift/index/lot.rs",
+    "src/index/utxo_entry.rs": "lift/index/utxo_entry.rs",
+    "src/inscriptions/inscription_id.rs": "lift/inscriptions/inscription_id.rs",
+}
+
+# files whose #[cfg(test)] module needs ord's full test context (a live Index over
+# mockcore); only their non-test code is lifted
+LIFT_STRIP_TESTS = {"src/runes.rs"}
+
+
+def strip_test_module(text):
+    i = text.find("\n#[cfg(test)]\nmod tests")
+    return text if i < 0 else text[:i + 1]
+
+
+LIFT_MANIFEST = """[package]
+name = "liftk"
+version = "0.0.0"
+edition = "2024"
+
+[lib]
+path = "src/lib.rs"
+
+[dependencies]
+ordinals = { path = "%s/crates/ordinals" }
+bitcoin = { version = "0.32.5", features = ["rand", "serde"] }
+serde = { version = "1.0.137", features = ["derive"] }
+serde_with = "3.7.0"
+redb = "3.1.0"
+ref-cast = "1.0.23"
+
+[dev-dependencies]
+pretty_assertions = "1.2.1"
+serde_json = { version = "1.0.81", features = ["preserve_order"] }
+
+[lints.rust]
+unexpected_cfgs = { level = "allow" }
+
+[workspace]
+"""
+
+
+def gen_lift():
+    """build/liftk: shim + harness files from /verif/harness/lift/src, real files
+    copied from /repo's current working tree."""
+    dst = os.path.join(C.BUILD, "liftk")
+    src = os.path.join(C.VERIF, "harness", "lift", "src")
+    keep = set()
+    for root, dirs, files in os.walk(src):
+        rel = os.path.relpath(root, src)
+        for fn in files:
+            rp = os.path.normpath(os.path.join(rel, fn))
+            data = open(os.path.join(root, fn)).read()
+            if "@PLAYBACK@" in data:
+                data = _with_playback("liftk", fn, data)
+            _write_if_changed(os.path.join(dst, "src", rp), data)
+            keep.add(os.path.join(dst, "src", rp))
+    for rp, to in LIFT_FILES.items():
+        data = open(os.path.join(C.REPO, rp)).read()
+        if rp in LIFT_STRIP_TESTS:
+            data = strip_test_module(data)
+        _write_if_changed(os.path.join(dst, "src", to), data)
+        keep.add(os.path.join(dst, "src", to))
+    for root, dirs, files in os.walk(os.path.join(dst, "src")):
+        for fn in files:
+            p = os.path.join(root, fn)
+            if p not in keep:
+                os.remove(p)
+    _write_if_changed(os.path.join(dst, "Cargo.toml"), LIFT_MANIFEST % C.REPO)
+    _write_if_changed(os.path.join(dst, "Cargo.lock"), open(os.path.join(C.REPO, "Cargo.lock")).read())
     return dst
 
 
@@ -205,9 +307,36 @@ def parse_kani_output(out):
     return recs
 
 
+def unwindset_args(crate_dir, harnesses, target_name, unwindset, log=None):
+    """Translate {function-name substring: bound} into CBMC --unwindset ids.
+    Runs codegen only, then `cbmc --show-loops` on the harness goto binaries (loop ids
+    are mangled function names, regenerated from the current build every run)."""
+    cmd = ["cargo", "kani", "--target-dir", os.path.join(C.BUILD, target_name), "--only-codegen"]
+    for h in harnesses:
+        cmd += ["--harness", h]
+    rc, out, wall = C.run(cmd, cwd=crate_dir, timeout=3000, log=log)
+    if rc != 0:
+        return None, out
+    pairs = {}
+    for h in harnesses:
+        outs = glob.glob(os.path.join(C.BUILD, target_name, "kani", "**", "out", "*%s.out" % h), recursive=True)
+        outs.sort(key=os.path.getmtime)
+        if not outs:
+            return None, "no goto binary for %s" % h
+        rc2, o2, _ = C.run(["cbmc", "--show-loops", outs[-1]], timeout=600)
+        for m in re.finditer(r"(?m)^Loop (\S+):\n\s+file (\S+) line \d+(?: column \d+)? function (.*)$", o2):
+            lid, fn = m.group(1), m.group(3)
+            for sub, n in unwindset.items():
+                if sub in fn:
+                    pairs[lid] = max(n, pairs.get(lid, 0))
+    if not pairs:
+        return [], ""
+    return ["--unwindset", ",".join("%s:%d" % kv for kv in sorted(pairs.items()))], ""
+
+
 def run_harnesses(crate_dir, harnesses, target_name, jobs=1, harness_timeout=None,
                   total_timeout=None, log=None, playback=False, extra_args=(), stubbing=False,
-                  mem_gb=None):
+                  mem_gb=None, unwindset=None):
     """Run the named harnesses (exact short names). Returns (records, raw_out, wall)."""
     cmd = ["cargo", "kani", "--target-dir", os.path.join(C.BUILD, target_name), "--output-format", "terse"]
     for h in harnesses:
@@ -226,6 +355,15 @@ def run_harnesses(crate_dir, harnesses, target_name, jobs=1, harness_timeout=Non
     if jobs and jobs > 1:
         cmd += ["-j", str(jobs)]
     cmd += list(extra_args)
+    if unwindset:
+        us, err = unwindset_args(crate_dir, harnesses, target_name, unwindset,
+                                 log=(log + ".codegen") if log else None)
+        if us is None:
+            return 1, "unwindset preparation failed:\n" + err[-3000:], 0.0
+        if us:
+            if "unstable-options" not in zs:
+                cmd += ["-Z", "unstable-options"]
+            cmd += ["--cbmc-args"] + us
     rc, out, wall = C.run(cmd, cwd=crate_dir, timeout=total_timeout, log=log,
                           mem_kb=(mem_gb * 1024 * 1024) if mem_gb else None)
     return rc, out, wall
